@@ -135,7 +135,7 @@ static Out run_one(const Parser& p, const Buffer& b, parse_options opts)
 template<class Parser>
 static void differential(const Parser& p, const std::string& in, unsigned optbits)
 {
-    parse_options opts; opts.set_skip_whitespace(!(optbits & 1)).set_skip_newline(!(optbits & 2));
+    parse_options opts; opts.set_skip_whitespace(!(optbits & 1)).set_skip_newline(!(optbits & 2)).set_verbose((optbits & 4) != 0);
     std::unique_ptr<char[]> exact(new char[in.size() ? in.size() : 1]); std::memcpy(exact.get(), in.data(), in.size());
     Out a = run_one(p, string_view_buffer(std::string_view(exact.get(), in.size())), opts);
     Out b = run_one(p, string_buffer(std::string(in)), opts);
@@ -151,7 +151,8 @@ static void differential(const Parser& p, const std::string& in, unsigned optbit
     size_t nonspace = 0; for (unsigned char ch : in) if (ch > 32) ++nonspace;
     bool nontriv = false;
     if (a.has && nonspace >= 3) nontriv = true;
-    if (!a.has) { int l = 0, col = 0; if (sscanf(a.err.c_str(), "[%d:%d]", &l, &col) == 2 && (l > 1 || col > 3)) nontriv = true; }
+    if (!a.has) { int l = 0, col = 0; size_t pe = a.err.rfind("\n[", a.err.size() >= 2 ? a.err.size() - 2 : 0); const char* last = pe == std::string::npos ? a.err.c_str() : a.err.c_str() + pe + 1; if (sscanf(last, "[%d:%d]", &l, &col) == 2 && (l > 1 || col > 3)) nontriv = true; }
+    if (optbits & 4) fstats().labels["verbose"]++;
     FStats& st = fstats();
     if (nontriv)
     {
@@ -169,20 +170,21 @@ static void differential(const Parser& p, const std::string& in, unsigned optbit
 }
 
 template<class E>
-static void match_one(const E& e, const std::string& in)
+static void match_one(const E& e, const std::string& in, bool verbose)
 {
     std::unique_ptr<char[]> exact(new char[in.size() ? in.size() : 1]); std::memcpy(exact.get(), in.data(), in.size());
     std::ostringstream o1, o2, o3;
     bool a, b, c;
+    match_options mo; mo.set_verbose(verbose);
     try
     {
-        a = e.match(string_view_buffer(std::string_view(exact.get(), in.size())), o1);
-        b = e.match(string_buffer(std::string(in)), o2);
+        a = e.match(mo, string_view_buffer(std::string_view(exact.get(), in.size())), o1);
+        b = e.match(mo, string_buffer(std::string(in)), o2);
         vb::CheckedBuffer cb(in);
-        c = e.match(cb, o3);
+        c = e.match(mo, cb, o3);
     }
     catch (const std::exception& ex) { violation(std::string("regex matcher threw / stepped outside the buffer: ") + ex.what(), in); }
-    if (a != b || a != c) violation("regex matcher result depends on the buffer kind", in);
+    if (a != b || a != c || o1.str() != o2.str() || o1.str() != o3.str()) violation("regex matcher result or output depends on the buffer kind", in);
     FStats& st = fstats();
     if (in.size() >= 2 && st.nontrivial.size() < 3000000 && st.nontrivial.insert(eng::hstr(in)).second) { st.labels[a ? "match" : "no-match"]++; if (st.samples.size() < 4 && in.size() < 100) st.samples.push_back(in); }
 }
@@ -203,17 +205,17 @@ extern "C" int LLVMFuzzerTestOneInput(const uint8_t* data, size_t size)
     unsigned sel = data[0];
     std::string in(reinterpret_cast<const char*>(data + 1), size - 1);
     const std::string& t = target();
-    if (t == "json") differential(P::json, in, sel & 3);
-    else if (t == "expr") differential(P::expression, in, sel & 3);
-    else if (t == "tokens") differential(P::tokens, in, sel & 3);
+    if (t == "json") differential(P::json, in, sel & 7);
+    else if (t == "expr") differential(P::expression, in, sel & 7);
+    else if (t == "tokens") differential(P::tokens, in, sel & 7);
     else if (t == "match")
     {
         switch (sel % 14)
         {
-        case 0: match_one(P::r0, in); break; case 1: match_one(P::r1, in); break; case 2: match_one(P::r2, in); break; case 3: match_one(P::r3, in); break;
-        case 4: match_one(P::r4, in); break; case 5: match_one(P::r5, in); break; case 6: match_one(P::r6, in); break; case 7: match_one(P::r7, in); break;
-        case 8: match_one(P::r8, in); break; case 9: match_one(P::r9, in); break; case 10: match_one(P::r10, in); break; case 11: match_one(P::r11, in); break;
-        case 12: match_one(P::r12, in); break; default: match_one(P::r13, in); break;
+        case 0: match_one(P::r0, in, (sel & 128) != 0); break; case 1: match_one(P::r1, in, (sel & 128) != 0); break; case 2: match_one(P::r2, in, (sel & 128) != 0); break; case 3: match_one(P::r3, in, (sel & 128) != 0); break;
+        case 4: match_one(P::r4, in, (sel & 128) != 0); break; case 5: match_one(P::r5, in, (sel & 128) != 0); break; case 6: match_one(P::r6, in, (sel & 128) != 0); break; case 7: match_one(P::r7, in, (sel & 128) != 0); break;
+        case 8: match_one(P::r8, in, (sel & 128) != 0); break; case 9: match_one(P::r9, in, (sel & 128) != 0); break; case 10: match_one(P::r10, in, (sel & 128) != 0); break; case 11: match_one(P::r11, in, (sel & 128) != 0); break;
+        case 12: match_one(P::r12, in, (sel & 128) != 0); break; default: match_one(P::r13, in, (sel & 128) != 0); break;
         }
     }
     else if (t == "pattern")
